@@ -11,9 +11,12 @@ def run(ctx):
     classes = {}
     viol, samples = [], []
     lost = 0
+    viol_crash = shm.crash_violations(parts)
     for p in parts:
         if p is None:
             lost += 1
+            continue
+        if p.get("_crashed"):
             continue
         for k in sw:
             sw[k] += p.get(k, 0)
@@ -21,6 +24,7 @@ def run(ctx):
             classes[k] = classes.get(k, 0) + v
         viol += p["violations"]
         samples += p["samples"][:1]
+    viol += viol_crash
     ctx.log("c11sweep: %s classes %s" % (sw, classes))
     cov, sviol, ssamples = shm.run_sched(ctx, b, "C11", 12000 if q else 600000)
     ctx.log("sched: %d scenarios, %d completed updates observed, stops %d" % (cov["scenarios"], cov["c11_observations"], cov["stops"]))
